@@ -347,6 +347,17 @@ def normalize_world(w: World):
             for c in m.scn.cbs:
                 if c.wrap == "lazy":
                     c.wrap = ""
+    # per-definition consistency (shared functions have one signature, attribute callbacks are not coroutines, ...):
+    # the class is built from the family's definition, the model from the member's copy of it
+    for f in w.families:
+        eng.normalize(f.scn)
+    for m in w.members:
+        eng.normalize(m.scn)
+        fam = {c.id: c for c in w.families[m.fam].scn.cbs}
+        for c in m.scn.cbs:
+            q = fam.get(c.id)
+            if q is not None and (c.same_as or any(x.same_as == c.id for x in m.scn.cbs)):
+                c.sig, c.named = q.sig, q.named
     return w
 
 
